@@ -1363,8 +1363,16 @@ VmTrap vm_core_execute(VmState *vm) {
                 vm_release(&vm->heap, arr);
                 return trap_error(vm, VM_ERR_TYPE_ERROR, "ARR_SLICE: not an array");
             }
-            uint32_t start = (uint32_t)(start_v.tag == TAG_INT ? start_v.as.i64 : 0);
-            uint32_t end = (uint32_t)(end_v.tag == TAG_INT ? end_v.as.i64 : arr.as.array->length);
+            /* clamp the 64-bit operands to [0, length] before narrowing (a negative or >= 2^32 value was truncated) */
+            int64_t alen = (int64_t)arr.as.array->length;
+            int64_t s64 = start_v.tag == TAG_INT ? start_v.as.i64 : 0;
+            int64_t e64 = end_v.tag == TAG_INT ? end_v.as.i64 : alen;
+            if (s64 < 0) s64 = 0;
+            if (s64 > alen) s64 = alen;
+            if (e64 < 0) e64 = 0;
+            if (e64 > alen) e64 = alen;
+            uint32_t start = (uint32_t)s64;
+            uint32_t end = (uint32_t)e64;
             VmArray *result = vm_array_slice(&vm->heap, arr.as.array, start, end);
             vm_release(&vm->heap, arr);
             stack_push(vm, val_array(result));
